@@ -48,7 +48,7 @@ def reversion(shape):
     at the SAME path - version 2 of the files of a history in one process."""
     sh = json.loads(json.dumps(shape))
     sh["symlink"] = shape.get("symlink", False)
-    sh["imgs"] = [[f, a, size + (1 if size not in (0, 65535) else 0), seed + 7919] for f, a, size, seed in sh.get("imgs", [])]
+    sh["imgs"] = [[f, a, size + (1 if size not in (0, 65535) else 0), seed + 7919, *rest] for f, a, size, seed, *rest in sh.get("imgs", [])]
     sh["pay"] = [[n, size + 1, form, seed + 7919] for n, size, form, seed in sh.get("pay", [])]
     sh["deps"] = [[n, reversion(c), form, a] for n, c, form, a in sh.get("deps", [])]
     return sh
@@ -82,9 +82,13 @@ def run_shape(ctx, tr, shape, via, origin, d=None, prev=None):
     params = collect_params(env)
     k = 0
     # images
-    for i, (form, alg, size, seed) in enumerate(shape.get("imgs", [])):
+    for i, (form, alg, size, seed, *decl) in enumerate(shape.get("imgs", [])):
         data = envgen.blob(size, seed)
         found = params[k] if k < len(params) else (None, b"", -1)
+        if decl:   # a declared number beyond TLC's integers: both sides are renamed injectively (the judge only compares them)
+            big = lambda v: v if v < 2 ** 30 else 2 ** 30 + t.it.id(str(v))   # noqa: E731
+            found = (found[0], found[1], big(found[2]) if found[2] >= 0 else found[2])
+            size = big(decl[0])
         k += 1
         want_alg = HASH_IDS[alg]
         dgb = project.H(want_alg, data)
@@ -163,6 +167,13 @@ def ref_shapes(ctx):
                             "pay": [[f"#p{k}", SIZES[k % len(SIZES)] if k % 3 else 70000, "file" if k % 2 else "hex", k]],
                             "paynames": {f"#p{k}": HEXY[k % len(HEXY)]}, "imgnames": {"0": HEXY[(k + 3) % len(HEXY)]},
                             "deps": [], "imgs": [[form, alg, size, 1000 + k]]})
+    # declared sizes (file_direct: the number in the text file; raw) beyond 2^32: 2^53 and its neighbours (where a detour through
+    # floating point starts to round), 10^16 + 1, 2^63 - 1, 2^64 - 1 (the last unsigned head)
+    for j, decl in enumerate([2 ** 32, 2 ** 53 - 1, 2 ** 53, 2 ** 53 + 1, 10 ** 16 + 1, 2 ** 63 - 1, 2 ** 63, 2 ** 64 - 1, 2 ** 40 + 7]):
+        for form in ("file_direct", "raw"):
+            k += 1
+            out.append({"walg": envgen.ALGS[k % 5], "wsup": "none", "seq": k, "pad": None, "mem": {}, "cid": None, "version": None, "pay": [],
+                        "deps": [], "imgs": [[form, envgen.ALGS[(k + j) % 5], 24, 2000 + k, decl]]})
     # nesting depth >= 2 with stale supplied digests in the children
     for n in range(25 if ctx.quick else 600):
         sh = envgen.random_shape(rng, maxdepth=3)
